@@ -820,6 +820,80 @@ def rewritten_files(rep):
                 os.unlink(path)
 
 
+def stdin_faults(rep):
+    """An environment fault: the k-th read of standard input fails once (EIO / EINTR-like OSError) without consuming
+    anything.  Whether the failure is passed on to the caller or retried is the library's choice; what the statement
+    fixes is the rest: the chunks handed out stay successive whole-sample chunks of the stream, and None is handed out
+    only once nothing remains - a failed read is not the end of the stream."""
+    aio = lib()["io"]
+    import sys as _sys
+
+    class Faulty:
+        def __init__(self, data, k):
+            self._b, self._k, self._n = io.BytesIO(data), k, 0
+
+        def read(self, n=-1):
+            self._n += 1
+            if self._n == self._k:
+                raise OSError(5, "Input/output error (injected)")
+            return self._b.read(n)
+
+        def read1(self, n=-1):
+            return self.read(n)
+
+        def readinto(self, buf):
+            self._n += 1
+            if self._n == self._k:
+                raise OSError(5, "Input/output error (injected)")
+            return self._b.readinto(buf)
+
+        def readable(self):
+            return True
+
+        closed = False
+
+    class Std:
+        pass
+
+    for (sw, ch) in ((2, 1), (1, 2)):
+        data = content(7, sw, ch)
+        for k in range(1, 6):
+            for size in (1, 2, 3):
+                rep.add("evaluations")
+                rep.add("distinct_nontrivial")
+                old = _sys.stdin
+                std = Std()
+                std.buffer = Faulty(data, k)
+                _sys.stdin = std
+                try:
+                    src = aio.StdinAudioSource(10, sw, ch)
+                    src.open()
+                    got, msg, raised = [], None, 0
+                    for _ in range(20):
+                        try:
+                            b = src.read(size)
+                        except OSError:
+                            raised += 1
+                            continue
+                        except Exception as exc:
+                            msg = "raised %r" % (exc,)
+                            break
+                        if b is None:
+                            break
+                        got.append(bytes(b))
+                    joined = b"".join(got)
+                    if msg is None and joined != data:
+                        msg = ("after read #%d of standard input failed once, reads of %d sample(s) handed out %d of %d bytes "
+                               "before None (chunks %r)" % (k, size, len(joined), len(data), [len(x) for x in got]))
+                    elif msg is None and any(len(x) != min(size * sw * ch, len(data) - sum(len(y) for y in got[:i])) for i, x in enumerate(got)):
+                        msg = "chunk sizes %r for reads of %d sample(s)" % ([len(x) for x in got], size)
+                finally:
+                    _sys.stdin = old
+                if msg:
+                    rep.violation("stdin-fault sw=%d ch=%d k=%d size=%d" % (sw, ch, k, size), msg, {"kind": "stdinfault"})
+                    return
+
+
 def run(prop, tier):
     rep = common.Report(prop, tier, "explicit-state search over the real read/open/close/position operations of every "
                         "source kind to closure, merges validated with d-step suffixes, plus all unpruned operation "
@@ -872,6 +946,7 @@ def run(prop, tier):
     fifo_lazy(rep)
     alias_table(rep)
     rewritten_files(rep)
+    stdin_faults(rep)
     for part in common.pmap(work, tasks):
         rep.merge(part)
     rep.assumptions += ["seconds/milliseconds positions are exercised on exact sample instants only",
@@ -884,6 +959,10 @@ def replay(case):
     if case.get("kind") == "alias":
         rep = common.Report("C11", "quick", "")
         alias_table(rep)
+        return rep.violations[0][1] if rep.violations else None
+    if case.get("kind") == "stdinfault":
+        rep = common.Report("C11", "quick", "")
+        stdin_faults(rep)
         return rep.violations[0][1] if rep.violations else None
     if case.get("kind") == "fifolazy":
         rep = common.Report("C11", "quick", "")
